@@ -144,131 +144,147 @@ pub fn run_map(case: &MapCase, st: &mut Stats) -> CaseResult {
     // the optimum is taken over the function the diagram denotes (whether the builder produced the requested
     // one is C01's / C06's / C08's concern)
     let t = bdd_tt(f);
-    // query set in an arbitrary order
-    let mut q: Vec<usize> = (0..n).filter(|v| (case.qmask >> v) & 1 == 1).collect();
-    let qk: Vec<u16> = q.iter().map(|v| case.qkeys.get(*v).copied().unwrap_or(0)).collect();
-    let mut idx: Vec<usize> = (0..q.len()).collect();
-    idx.sort_by_key(|i| qk[*i]);
-    q = idx.iter().map(|i| q[*i]).collect();
-    let qset: BTreeSet<usize> = q.iter().copied().collect();
-    // weights: non-query normalised k/8, query arbitrary in [0,1]
-    let w = |v: usize, bit: bool| -> f64 {
-        let (l, h) = case.w.get(v).copied().unwrap_or((4, 4));
-        if case.tiny {
-            let pw2 = |k: u8| (0.5f64).powi((k % 8) as i32);
-            return if qset.contains(&v) {
-                // query variables: any power of two down to 2^-15 (a power-of-two factor never costs precision), so
-                // that whole families of candidates lie below 1e-9
-                let j = if bit { (h as i32 * 9 + l as i32 + 5) % 16 } else { (l as i32 * 9 + h as i32) % 16 };
-                (0.5f64).powi(j)
-            } else {
-                // normalised: (2^-k, 1 - 2^-k), which side is the small one depends on l
-                let p = pw2(1 + h % 7);
-                if bit == (l & 1 == 1) {
-                    p
+    // three rounds on the same diagram: the case's query set and weights with marginal_map then bb; a second query
+    // set and the weights shifted by one variable with bb then marginal_map; a third with marginal_map alone (so two
+    // marginal_map calls follow each other directly with different query sets and weights): an optimum may not
+    // depend on what was asked before
+    let rounds: [(u8, usize, &str); 3] = [(case.qmask, 0, "mb"), (case.qmask.rotate_left(3) ^ 0x2D, 1, "bm"), (!case.qmask ^ (case.extra_vars >> 2), 2, "m")];
+    for (round, (qmask, wrot, calls)) in rounds.iter().copied().enumerate() {
+        // query set in an arbitrary order
+        let mut q: Vec<usize> = (0..n).filter(|v| (qmask >> v) & 1 == 1).collect();
+        let qk: Vec<u16> = q.iter().map(|v| case.qkeys.get(*v).copied().unwrap_or(0)).collect();
+        let mut idx: Vec<usize> = (0..q.len()).collect();
+        idx.sort_by_key(|i| qk[*i]);
+        q = idx.iter().map(|i| q[*i]).collect();
+        let qset: BTreeSet<usize> = q.iter().copied().collect();
+        // weights: non-query normalised k/8, query arbitrary in [0,1]
+        let w = |v: usize, bit: bool| -> f64 {
+            let (l, h) = case.w.get((v + wrot) % case.w.len().max(1)).copied().unwrap_or((4, 4));
+            if case.tiny {
+                let pw2 = |k: u8| (0.5f64).powi((k % 8) as i32);
+                return if qset.contains(&v) {
+                    // query variables: any power of two down to 2^-15 (a power-of-two factor never costs precision), so
+                    // that whole families of candidates lie below 1e-9
+                    let j = if bit { (h as i32 * 9 + l as i32 + 5) % 16 } else { (l as i32 * 9 + h as i32) % 16 };
+                    (0.5f64).powi(j)
                 } else {
-                    1.0 - p
-                }
-            };
-        }
-        if qset.contains(&v) {
-            (if bit { h % 9 } else { l % 9 }) as f64 / 8.0
-        } else {
-            let k = (h % 9) as f64 / 8.0;
-            if bit {
-                k
+                    // normalised: (2^-k, 1 - 2^-k), which side is the small one depends on l
+                    let p = pw2(1 + h % 7);
+                    if bit == (l & 1 == 1) {
+                        p
+                    } else {
+                        1.0 - p
+                    }
+                };
+            }
+            if qset.contains(&v) {
+                (if bit { h % 9 } else { l % 9 }) as f64 / 8.0
             } else {
-                1.0 - k
+                let k = (h % 9) as f64 / 8.0;
+                if bit {
+                    k
+                } else {
+                    1.0 - k
+                }
+            }
+        };
+        let mut params = WmcParams::<RealSemiring>::default();
+        for l in 0..emb.total {
+            match emb.labels.iter().position(|x| *x == l) {
+                Some(v) => params.set_weight(VarLabel::new_usize(l), RealSemiring(w(v, false)), RealSemiring(w(v, true))),
+                None => params.set_weight(VarLabel::new_usize(l), RealSemiring(0.5), RealSemiring(0.5)),
             }
         }
-    };
-    let mut params = WmcParams::<RealSemiring>::default();
-    for l in 0..emb.total {
-        match emb.labels.iter().position(|x| *x == l) {
-            Some(v) => params.set_weight(VarLabel::new_usize(l), RealSemiring(w(v, false)), RealSemiring(w(v, true))),
-            None => params.set_weight(VarLabel::new_usize(l), RealSemiring(0.5), RealSemiring(0.5)),
+        let fops = Ops::<f64> { zero: 0.0, one: 1.0, add: &|a, b| a + b, mul: &|a, b| a * b };
+        let all: Vec<usize> = (0..n).collect();
+        // value(q) = sum over models consistent with q of the product of all weights
+        let value = |asg: &[(usize, bool)]| -> f64 {
+            let mut g = t;
+            for (v, bit) in asg {
+                g = g.and(Tt::lit(*v, *bit));
+            }
+            brute_force(g, &all, &w, &fops)
+        };
+        let mut best = f64::NEG_INFINITY;
+        let mut values: Vec<f64> = Vec::new();
+        for a in 0..(1usize << q.len()) {
+            let asg: Vec<(usize, bool)> = q.iter().enumerate().map(|(i, v)| (*v, (a >> i) & 1 == 1)).collect();
+            let val = value(&asg);
+            values.push(val);
+            if val > best {
+                best = val;
+            }
         }
-    }
-    let fops = Ops::<f64> { zero: 0.0, one: 1.0, add: &|a, b| a + b, mul: &|a, b| a * b };
-    let all: Vec<usize> = (0..n).collect();
-    // value(q) = sum over models consistent with q of the product of all weights
-    let value = |asg: &[(usize, bool)]| -> f64 {
-        let mut g = t;
-        for (v, bit) in asg {
-            g = g.and(Tt::lit(*v, *bit));
+        let qlbl: Vec<VarLabel> = q.iter().map(|v| VarLabel::new_usize(emb.labels[*v])).collect();
+        let check = |name: &str, got: f64, pm: &PartialModel| -> CaseResult {
+            let m = model_of(pm, &emb.labels);
+            ensure!(
+                got == best,
+                format!("C12/{}-value-not-the-maximum", name),
+                "{} over query {:?} returned {} but the maximum over all query assignments is {} (values {:?}); function {:?}, order {:?}",
+                name,
+                q,
+                got,
+                best,
+                values,
+                t,
+                order
+            );
+            ensure!(
+                q.iter().all(|v| m[*v].is_some()),
+                format!("C12/{}-assignment-incomplete", name),
+                "{} returned the assignment {:?} which leaves a query variable of {:?} unassigned",
+                name,
+                m,
+                q
+            );
+            let asg: Vec<(usize, bool)> = q.iter().map(|v| (*v, m[*v].unwrap())).collect();
+            let val = value(&asg);
+            ensure!(
+                val == best,
+                format!("C12/{}-assignment-does-not-attain-the-value", name),
+                "{} returned the assignment {:?} whose value is {} while the maximum is {}",
+                name,
+                asg,
+                val,
+                best
+            );
+            Ok(())
+        };
+        let nv = emb.total + (case.extra_vars % 4) as usize;
+        st.flag("map.embedded_in_a_larger_builder", case.embed.is_some());
+        st.flag("map.query_label_at_or_above_64", q.iter().any(|v| emb.labels[*v] >= 64));
+        for call in calls.chars() {
+            if call == 'm' {
+                let (v1, m1) = f.marginal_map(&qlbl, nv, &params);
+                check("marginal_map", v1, &m1)?;
+            } else {
+                let (v2, m2) = f.bb::<RealSemiring>(&qlbl, nv, &params);
+                check("bb-real", v2.0, &m2)?;
+            }
         }
-        brute_force(g, &all, &w, &fops)
-    };
-    let mut best = f64::NEG_INFINITY;
-    let mut values: Vec<f64> = Vec::new();
-    for a in 0..(1usize << q.len()) {
-        let asg: Vec<(usize, bool)> = q.iter().enumerate().map(|(i, v)| (*v, (a >> i) & 1 == 1)).collect();
-        let val = value(&asg);
-        values.push(val);
-        if val > best {
-            best = val;
+        if round > 0 {
+            st.bump("map.later_round_on_the_same_diagram(other query set, other weights)");
+            continue;
         }
-    }
-    let qlbl: Vec<VarLabel> = q.iter().map(|v| VarLabel::new_usize(emb.labels[*v])).collect();
-    let check = |name: &str, got: f64, pm: &PartialModel| -> CaseResult {
-        let m = model_of(pm, &emb.labels);
-        ensure!(
-            got == best,
-            format!("C12/{}-value-not-the-maximum", name),
-            "{} over query {:?} returned {} but the maximum over all query assignments is {} (values {:?}); function {:?}, order {:?}",
-            name,
-            q,
-            got,
-            best,
-            values,
-            t,
-            order
-        );
-        ensure!(
-            q.iter().all(|v| m[*v].is_some()),
-            format!("C12/{}-assignment-incomplete", name),
-            "{} returned the assignment {:?} which leaves a query variable of {:?} unassigned",
-            name,
-            m,
-            q
-        );
-        let asg: Vec<(usize, bool)> = q.iter().map(|v| (*v, m[*v].unwrap())).collect();
-        let val = value(&asg);
-        ensure!(
-            val == best,
-            format!("C12/{}-assignment-does-not-attain-the-value", name),
-            "{} returned the assignment {:?} whose value is {} while the maximum is {}",
-            name,
-            asg,
-            val,
-            best
-        );
-        Ok(())
-    };
-    let nv = emb.total + (case.extra_vars % 4) as usize;
-    st.flag("map.embedded_in_a_larger_builder", case.embed.is_some());
-    st.flag("map.query_label_at_or_above_64", q.iter().any(|v| emb.labels[*v] >= 64));
-    let (v1, m1) = f.marginal_map(&qlbl, nv, &params);
-    check("marginal_map", v1, &m1)?;
-    let (v2, m2) = f.bb::<RealSemiring>(&qlbl, nv, &params);
-    check("bb-real", v2.0, &m2)?;
-    let in_support = q.iter().filter(|v| t.depends(**v)).count();
-    let mut dv = values.clone();
-    dv.sort_by(|a, b| a.partial_cmp(b).unwrap());
-    dv.dedup();
-    st.flag("map.tiny_weights", case.tiny);
-    st.flag("map.best_below_1e-9", best > 0.0 && best < 1e-9);
-    st.flag("map.two_candidates_closer_than_1e-9", {
-        let mut d = values.clone();
-        d.sort_by(|a, b| a.partial_cmp(b).unwrap());
-        d.windows(2).any(|p| p[1] != p[0] && p[1] - p[0] < 1e-9)
-    });
-    st.flag("map.empty_query", q.is_empty());
-    st.flag("map.all_query", q.len() == n);
-    st.flag("map.query_outside_support", q.iter().any(|v| !t.depends(*v)));
-    st.flag("map.tie_for_maximum", values.iter().filter(|v| **v == best).count() >= 2);
-    if in_support >= 2 && dv.len() >= 2 {
-        st.mark_nontrivial();
+        let in_support = q.iter().filter(|v| t.depends(**v)).count();
+        let mut dv = values.clone();
+        dv.sort_by(|a, b| a.partial_cmp(b).unwrap());
+        dv.dedup();
+        st.flag("map.tiny_weights", case.tiny);
+        st.flag("map.best_below_1e-9", best > 0.0 && best < 1e-9);
+        st.flag("map.two_candidates_closer_than_1e-9", {
+            let mut d = values.clone();
+            d.sort_by(|a, b| a.partial_cmp(b).unwrap());
+            d.windows(2).any(|p| p[1] != p[0] && p[1] - p[0] < 1e-9)
+        });
+        st.flag("map.empty_query", q.is_empty());
+        st.flag("map.all_query", q.len() == n);
+        st.flag("map.query_outside_support", q.iter().any(|v| !t.depends(*v)));
+        st.flag("map.tie_for_maximum", values.iter().filter(|v| **v == best).count() >= 2);
+        if in_support >= 2 && dv.len() >= 2 {
+            st.mark_nontrivial();
+        }
     }
     Ok(())
 }
